@@ -119,7 +119,9 @@ theorem frames_fixed_array :
 /-- the three places where `vm.eval` is called, each after claiming a frame: frame 0 for the
     entry point, frame `fp+1` for every function call (`callFunction`: the Call opcode,
     callbacks of builtins through the context's CallFunc, `vm.Call`, deferred calls) and for
-    every module body (`importModule`) — the `enter` step of `nestStep` -/
+    every module body (`importModule`) — the frame-index test of the `enter` step of `nestStep`;
+    `callFunction` is the only one of them that can be re-entered at the SAME frame index (its
+    deferred calls), and it is the one that counts its nesting: `call_depth_discipline` -/
 def reviewedEvalReentries : List String := [
   "vm.VirtualMachine.callFunction: activateFunction(vm.fp + 1, …) then eval",
   "vm.VirtualMachine.importModule: activateCode(vm.fp + 1, …) then eval",
@@ -130,6 +132,26 @@ def reviewedEvalReentries : List String := [
     frame than `fp+1`) -/
 theorem eval_reentries_reviewed :
     evalReentries.all (reviewedEvalReentries.contains ·) = true := by decide
+
+/-- what `callFunction` does with its nesting counter, in source order: it TESTS `vm.callDepth`
+    against `MaxFrameDepth` (= `maxCalls`: `vm_limits_match`) and returns the error before
+    anything is claimed; raises it; lowers it in the Go `defer` that is registered FIRST — which
+    therefore runs LAST, after the `defer` registered later that runs the frame's deferred calls
+    (`range callFrame.defers`): the counter is still raised while those run; `activateFunction`
+    and `eval` come after the test.  No other function of vm/ reads or writes the counter
+    (`Clone` builds the clone's struct without it: a clone starts at 0, like `Nest.init`).
+    This is the `enter` step of `nestStep` with `checked = true`, and the `leave` / `defersDone`
+    steps' `calls - 1`. -/
+def reviewedCallDepthUses : List String := [
+  "vm.VirtualMachine.callFunction: if vm.callDepth >= MaxFrameDepth { return }; callDepth++; defer{; callDepth--; }; activateFunction; defer{; range defers; }; eval"
+]
+
+set_option maxRecDepth 8000 in
+/-- the nesting counter of `callFunction` is used exactly as reviewed (since the repair of
+    `C03-defer-recursion-stack-overflow`; on the pre-fix code the list was
+    `["…callFunction: defer{; }; activateFunction; defer{; range defers; }; eval"]` — no test:
+    `preFixNestRun`) -/
+theorem call_depth_discipline : callDepthUses = reviewedCallDepthUses := by decide
 
 /-! ### Mutexes (Model 4d) -/
 
